@@ -93,7 +93,7 @@ def rule_effects(ctx, rm):
     for b in prog.bodies:
         k = 0
         for c in b.live_calls:
-            if c.callee in LOCK_CALLS and guard_class(c.term['dest']['ty']) == 'CONTEXT':
+            if (c.callee in LOCK_CALLS or (c.ruid is not None and c.ruid in getattr(getattr(c.body.facts, '_prog', None), 'acq_helpers', ()))) and guard_class(c.term['dest']['ty']) == 'CONTEXT':
                 origins = trace_operand(b, c.args[0], through_calls=set(TRANSPARENT_CALLS))
                 key = 'EFFECTS|ctxlock|%s|#%d' % (b.name, k)
                 k += 1
